@@ -7,4 +7,7 @@ use_repo()
 from .runner import main  # noqa: E402
 
 if __name__ == "__main__":
+    if len(sys.argv) > 1 and sys.argv[1] == "selftest":
+        from .selftest import main as st_main
+        sys.exit(st_main(sys.argv[1:]))
     sys.exit(main())
